@@ -158,6 +158,73 @@ theorem C08_stack_empty_only_if_empty (s : State (List Int) SOp Ret) (h : Reach 
     | none => simpa using hq
     | some a => simp [hop, sApply, hq] at this
 
+/-! ### "over any wrapped queue/stack": a BOUNDED wrapped object (Offer/Put/Push can report full)
+
+    `C08_linearizable`, `C08_real_time_order`, `C08_each_return_is_sequential`, `C08_mutual_exclusion` are generic
+    and apply verbatim to `boundedQueueSys cap` / `boundedStackSys cap` (the harness wraps a deliberately
+    non-thread-safe ring buffer of capacity `cap` that counts overlapping entries). -/
+
+/-- bounded queue: removed ++ content = the values whose insertion was ACCEPTED, in linearization order (FIFO,
+    exactly once, no phantom; a rejected value never appears), and the content never exceeds the capacity -/
+theorem C08_bounded_queue_conservation (cap : Nat) (s : State (List Int) QOp Ret) (h : Reach (boundedQueueSys cap) s) :
+    okVals (s.lin.map (·.ret)) ++ s.obj = acceptedQ (s.lin.map (·.op)) (s.lin.map (·.ret)) ∧ s.obj.length ≤ cap := by
+  have hs := (reach_inv (boundedQueueSys cap) (boundedQueueSys_excl cap) h).seq
+  have e : (boundedQueueSys cap).apply = qApplyB cap := rfl
+  have e2 : (boundedQueueSys cap).init = [] := rfl
+  rw [e, e2] at hs
+  have h1 := bqueue_conservation cap (s.lin.map (·.op)) []
+  have h2 := bqueue_bound cap (s.lin.map (·.op)) [] (by simp)
+  rw [hs] at h1 h2
+  exact ⟨by simpa using h1, h2⟩
+
+/-- an insertion reports `full` only if the bounded queue is full at its linearization point, `empty` only if
+    it is empty there -/
+theorem C08_bounded_queue_full_only_if_full (cap : Nat) (s : State (List Int) QOp Ret) (h : Reach (boundedQueueSys cap) s)
+    (pre post : List (LinE QOp Ret)) (e : LinE QOp Ret) (hl : s.lin = pre ++ e :: post) :
+    (e.ret = .full → cap ≤ (seqRun (qApplyB cap) [] (pre.map (·.op))).1.length) ∧
+    (e.ret = .empty → (seqRun (qApplyB cap) [] (pre.map (·.op))).1 = []) := by
+  have := C08_each_return_is_sequential (boundedQueueSys cap) (boundedQueueSys_excl cap) s h pre post e hl
+  have e1 : (boundedQueueSys cap).apply = qApplyB cap := rfl
+  have e2 : (boundedQueueSys cap).init = [] := rfl
+  rw [e1, e2] at this
+  generalize (seqRun (qApplyB cap) [] (pre.map (·.op))).1 = q at this ⊢
+  constructor
+  · intro he; rw [he] at this
+    cases hop : e.op <;> simp [hop, qApplyB] at this
+    · by_cases hq : q.length < cap
+      · simp [hq] at this
+      · omega
+    · by_cases hq : q.length < cap
+      · simp [hq] at this
+      · omega
+    · cases q <;> simp at this
+    · cases q <;> simp at this
+  · intro he; rw [he] at this
+    cases hop : e.op <;> simp [hop, qApplyB] at this
+    · by_cases hq : q.length < cap <;> simp [hq] at this
+    · by_cases hq : q.length < cap <;> simp [hq] at this
+    · cases q <;> simp at this ⊢
+    · cases q <;> simp at this ⊢
+
+/-- bounded stack: the content never exceeds the capacity (LIFO, exactly-once etc. are clause (1) of
+    `C08_linearizable` for `sApplyB cap`) -/
+theorem C08_bounded_stack_bound (cap : Nat) (s : State (List Int) SOp Ret) (h : Reach (boundedStackSys cap) s) :
+    s.obj.length ≤ cap ∧
+    seqRun (sApplyB cap) [] (s.lin.map (·.op)) = (s.obj, s.lin.map (·.ret)) := by
+  have hs := (reach_inv (boundedStackSys cap) (boundedStackSys_excl cap) h).seq
+  have e : (boundedStackSys cap).apply = sApplyB cap := rfl
+  have e2 : (boundedStackSys cap).init = [] := rfl
+  rw [e, e2] at hs
+  have h2 := bstack_bound cap (s.lin.map (·.op)) [] (by simp)
+  rw [hs] at h2
+  exact ⟨h2, hs⟩
+
+/-- non-vacuity: capacity 1, the second Offer reports full, after a Poll there is room again -/
+example : (run (boundedQueueSys 1) (initState (boundedQueueSys 1))
+      [.inv 0 (.offer 1), .acq 0, .read 0, .commit 0, .rel 0, .inv 1 (.put 2), .acq 1, .read 1, .commit 1, .rel 1,
+       .inv 2 .poll, .acq 2, .read 2, .commit 2, .rel 2, .inv 1 (.put 2), .acq 1, .read 1, .commit 1, .rel 1]).map
+      (fun s => (s.done.map (·.ret), s.obj)) = some ([.nil, .full, .ok 1, .nil], [2]) := by decide
+
 /-! ### the pre-fix code is refuted -/
 
 /-- the schedule: one Offer(1) completes; two consumers enter Poll under RLock together, both read the
